@@ -152,6 +152,8 @@ def normalise_name(raw, repo, first_param=None):
     if " for " in h:
         tr, ty = h.split(" for ", 1)
         return "<%s as %s>%s" % (ty.strip(), tr.strip(), rest)
+    # inherent impl of a generic type: calls print as `Type::<Args>::method`, i.e. `Type::method` without generics
+    h = re.sub(r"^([A-Za-z_][\w:]*)<.*>$", r"\1", h)
     return h + rest
 
 
@@ -220,6 +222,12 @@ class Program:
         """exact normalised name, else unique suffix match"""
         if name in self.fns:
             return self.fns[name]
+        # `module::<impl path::Type>::method` (inherent impl in another module) -> `Type::method`
+        m = re.match(r"^(?:\w+::)*<impl (?:\w+::)*(\w+)>::(.*)$", name)
+        if m:
+            name = m.group(1) + "::" + m.group(2)
+            if name in self.fns:
+                return self.fns[name]
         key = strip_generics(name)
         cands = [f for f in self.by_last.get(last_segment(key), [])
                  if strip_generics(f.name) == key or strip_generics(f.name).endswith("::" + key)
